@@ -7,6 +7,8 @@ set -u
 id=$1; l=$2; tier=${3:-quick}
 src=${SEEDROOT:-/tmp/seed}-$id/SEED/$l
 tag=${SEEDTAG:-}
+# SEEDPROP: the property to check when the seed directory name is not a bare property id (e.g. seed9-C04x)
+id=${SEEDPROP:-$id}
 export GOFLAGS=-mod=mod GOPROXY=off
 [ -f "$src/patch.diff" ] || { echo "RESULT $id-$l NO-PATCH"; exit 2; }
 wt=/tmp/wt-seed-$id-$tag$l
